@@ -9,7 +9,7 @@ From SE Require Export Sem.Deriv.
 Inductive pstep :=
 | PExplicit (j : option text)
 | PRefl
-| PSym (p : nat)
+| PSymm (p : nat)
 | PTrans (p q : nat)
 | PCong (ps : list nat).
 
@@ -209,7 +209,7 @@ Definition check_node (A : asserted) (done : list pnode) (n : pnode) : bool :=
   match pst n with
   | PExplicit j => existsb (fun a => let '(l, r, j') := a in opt_text_eqb j j' && match2 0 l r (pl n) (pr n)) A
   | PRefl => cterm_eqb (pl n) (pr n)
-  | PSym p => match eq_of done p with Some (l, r) => match2 0 r l (pl n) (pr n) | None => false end
+  | PSymm p => match eq_of done p with Some (l, r) => match2 0 r l (pl n) (pr n) | None => false end
   | PTrans p q =>
       match eq_of done p, eq_of done q with
       | Some (l1, r1), Some (l2, r2) => check_trans l1 r1 l2 r2 (pl n) (pr n)
